@@ -2,8 +2,9 @@
 
 Run with a given PYTHONHASHSEED; applies a fixed, seed-derived list of rename maps to corpus and synthetic
 models and prints one JSON object: the iteration order of the collected symbol set actually observed (to prove
-the sweep saw really different orders), one digest per case of the complete result, and what the code does
-in the one situation that is known to depend on the set order (finding F2).
+the sweep saw really different orders) and one digest per case of the complete result — including the situations
+that depended on the set order before c9b6eb9 (findings F1/F2: two unrenamed symbols share a target name; sources
+with different assumptions under one fresh name).
 """
 import hashlib
 import json
@@ -67,20 +68,14 @@ def main():
         if collect is not None:
             orders.append([s.name for s in collect()][:12])
         info = corr.model_info(m)
-        collected = {s for v in info["by_name"].values() for s in v}
         for kind in corr.KINDS:
             ren = corr.gen_map(rng, info, kind)
             rd = dict(ren)
-            if any(len([s for s in collected if s.name == new and s.name not in rd]) > 1 for new in rd.values()):
-                continue  # F2, reported separately
             r = m.rename_symbols(ren)
             cases.append({"model": label, "renames": list(rd.items()), "digest": canon(r)})
             # a second rename on the result (history)
             ren2 = corr.gen_map(rng, corr.model_info(r), "mixed")
             rd2 = dict(ren2)
-            col2 = {s for v in corr.model_info(r)["by_name"].values() for s in v}
-            if any(len([s for s in col2 if s.name == new and s.name not in rd2]) > 1 for new in rd2.values()):
-                continue
             cases.append({"model": label + " after " + json.dumps(list(rd.items())), "renames": list(rd2.items()),
                           "digest": canon(r.rename_symbols(ren2))})
     # F2: two unrenamed symbols share the target name
@@ -96,6 +91,9 @@ def main():
                       components={}, reaction_info=reaction)
     r = m.rename_symbols({"c": "a"})
     f2 = [repr(v) for v in r.parameter_defaults.values()]
+    cases.append({"model": "F2 model: a (real), a (positive), c; tools/corr/C17_hashprobe.py", "renames": [["c", "a"]], "digest": canon(r)})
+    r = m.rename_symbols({"a": "z", "c": "z"})  # three sources with three assumption sets under one fresh name
+    cases.append({"model": "F2 model: a (real), a (positive), c; tools/corr/C17_hashprobe.py", "renames": [["a", "z"], ["c", "z"]], "digest": canon(r)})
     print(json.dumps({"orders": orders, "cases": cases, "f2": f2}))
 
 
